@@ -89,4 +89,15 @@ class Hist(object):
                 if os.path.exists(path):
                     os.remove(path)
             return None
+        if kind == "reload":
+            # write the project and read the file back into the SAME BaseProject object
+            path = scratch_file("rl")
+            try:
+                err = self._call(p.write_simple_json, path)
+                if err:
+                    return err
+                return self._call(p.read_simple_json, path)
+            finally:
+                if os.path.exists(path):
+                    os.remove(path)
         raise ValueError(kind)
